@@ -501,6 +501,128 @@ fn recycle_vec<T, U>(mut v: Vec<T>) -> Vec<U> {
     v_out
 }
 
+/// Verification hook: a `QueryBroadcaster<u64, u64>` whose senders are scripted
+/// from outside (replies and wake-ups are injected by the harness).
+#[cfg(nexosim_verif)]
+pub(crate) mod verif {
+    use std::future::Future;
+    use std::pin::Pin;
+    use std::sync::{Arc, Mutex};
+    use std::task::{Poll, Waker};
+
+    use recycle_box::RecycleBox;
+
+    use super::super::sender::{RecycledFuture, Sender};
+    use super::QueryBroadcaster;
+    use crate::channel::SendError;
+
+    /// State of one scripted replier, shared with the harness.
+    #[derive(Default)]
+    pub struct VSlot {
+        /// Reply to be returned by the next poll of the sub-future, if any.
+        pub reply: Option<u64>,
+        /// Makes the next poll of the sub-future fail with `SendError`.
+        pub fail: bool,
+        /// Waker registered by the last poll that returned `Pending`.
+        pub waker: Option<Waker>,
+        /// Number of polls of sub-futures of this replier.
+        pub polls: usize,
+        /// (Mapped) requests received so far.
+        pub requests: Vec<u64>,
+    }
+
+    struct ScriptedSender {
+        slot: Arc<Mutex<VSlot>>,
+        add: u64,
+        fmod: u64,
+        fres: u64,
+        fut_storage: Option<RecycleBox<()>>,
+    }
+
+    impl Clone for ScriptedSender {
+        fn clone(&self) -> Self {
+            Self {
+                slot: self.slot.clone(),
+                add: self.add,
+                fmod: self.fmod,
+                fres: self.fres,
+                fut_storage: None,
+            }
+        }
+    }
+
+    impl Sender<u64, u64> for ScriptedSender {
+        fn send(&mut self, arg: &u64) -> Option<RecycledFuture<'_, Result<u64, SendError>>> {
+            if self.fmod != 0 && *arg % self.fmod != self.fres {
+                return None;
+            }
+            let slot = self.slot.clone();
+            slot.lock().unwrap().requests.push(*arg + self.add);
+
+            Some(RecycledFuture::new(&mut self.fut_storage, async move {
+                std::future::poll_fn(move |cx| {
+                    let mut s = slot.lock().unwrap();
+                    s.polls += 1;
+                    if s.fail {
+                        s.fail = false;
+                        return Poll::Ready(Err(SendError));
+                    }
+                    match s.reply.take() {
+                        Some(r) => Poll::Ready(Ok(r)),
+                        None => {
+                            s.waker = Some(cx.waker().clone());
+                            Poll::Pending
+                        }
+                    }
+                })
+                .await
+            }))
+        }
+    }
+
+    pub struct VQueryBroadcaster {
+        inner: QueryBroadcaster<u64, u64>,
+    }
+
+    impl VQueryBroadcaster {
+        pub fn new() -> Self {
+            Self {
+                inner: QueryBroadcaster::default(),
+            }
+        }
+        /// Adds a scripted replier: accepts `arg` iff `fmod == 0 || arg % fmod
+        /// == fres`, receives `arg + add`.
+        pub fn add(&mut self, add: u64, fmod: u64, fres: u64) -> Arc<Mutex<VSlot>> {
+            let slot = Arc::new(Mutex::new(VSlot::default()));
+            self.inner.add(Box::new(ScriptedSender {
+                slot: slot.clone(),
+                add,
+                fmod,
+                fres,
+                fut_storage: None,
+            }));
+            slot
+        }
+        pub fn len(&self) -> usize {
+            self.inner.len()
+        }
+        /// Broadcasts `arg`; only the first `consume` replies of the returned
+        /// iterator are consumed.
+        pub fn broadcast<'a>(
+            &'a mut self,
+            arg: u64,
+            consume: usize,
+        ) -> Pin<Box<dyn Future<Output = Result<Vec<u64>, ()>> + 'a>> {
+            Box::pin(async move {
+                match self.inner.broadcast(arg).await {
+                    Ok(it) => Ok(it.take(consume).collect()),
+                    Err(_) => Err(()),
+                }
+            })
+        }
+    }
+}
+
 #[cfg(all(test, not(nexosim_loom)))]
 mod tests {
     use std::sync::atomic::{AtomicUsize, Ordering};
